@@ -580,7 +580,20 @@ func c01(r *Run) {
 			}
 			n++
 			src, fromRead := loadOfField(st.Val, "UnsafeLinkBuffer", "read")
-			okv := fromRead && len(wb.Params) > 1 && src == wb.Params[1]
+			// under the race build the donor is a SafeLinkBuffer that embeds the unsafe one: look through the embedding
+			root := src
+			for root != nil {
+				if fa, isFA := root.(*ssa.FieldAddr); isFA {
+					root = fa.X
+					continue
+				}
+				if u, isU := root.(*ssa.UnOp); isU && u.Op == token.MUL {
+					root = u.X
+					continue
+				}
+				break
+			}
+			okv := fromRead && len(wb.Params) > 1 && root == wb.Params[1]
 			r.ob("C01.R6:append-splices-from-read-cursor:"+siteKey(w, i), "Append links the donor's chain starting at the donor's read cursor: consumed bytes in front of it do not become readable again", wb, i, okv, "b.write.next = buf.read", true)
 		})
 		if n == 0 {
